@@ -219,6 +219,30 @@ Section History.
   Definition fresh (t : list hrow) : pstate := mk_pstate t None [] O.
 End History.
 
+(* ---------------------------------------------------------------- one BIOGEME object and its engine
+   The engine (cythonbiogeme) keeps its own copy of the table and of the map.  The constructor sends both
+   (after rebuilding the map, which sorts the table); calculate_likelihood[_and_derivatives] rebuilds the
+   map of the DATABASE but sends nothing; simulate (repaired) rebuilds the map and sends the current table
+   and map.  Between these calls the table of the database may change (Database.remove, direct edits). *)
+Section Object.
+  Context {A : Type}.
+  Record engine : Type := mk_engine { e_table : list (@hrow A); e_map : list block }.
+  Inductive bop : Type := BChange (t : list (@hrow A)) | BLikelihood | BSimulate.
+  Definition send (c : nat) (db : list (@hrow A)) : list (@hrow A) * engine :=
+    let st := sort_by (hkey c) db in (st, mk_engine st (build_map (col_ids c db))).
+  Definition bstep (c : nat) (s : list (@hrow A) * engine) (o : bop) : list (@hrow A) * engine :=
+    match o with
+    | BChange t => (t, snd s)
+    | BLikelihood => (sort_by (hkey c) (fst s), snd s)
+    | BSimulate => send c (fst s)
+    end.
+  Definition run_object (c : nat) (db : list (@hrow A)) (ops : list bop) : list (@hrow A) * engine :=
+    fold_left (bstep c) ops (send c db).
+  (* the engine evaluates ONE consistent table: sorted, with the map of exactly that table *)
+  Definition engine_ok (c : nat) (e : engine) : Prop :=
+    StronglySorted Z.le (col_ids c (e_table e)) /\ e_map e = build_map (col_ids c (e_table e)).
+End Object.
+
 (* ---------------------------------------------------------------- instances *)
 From Coq Require Import Reals QArith Qabs.
 Open Scope Z_scope.
